@@ -8,6 +8,7 @@ import (
 	"encoding/binary"
 	"encoding/hex"
 	"encoding/json"
+	"errors"
 	"fmt"
 	"sort"
 	"strconv"
@@ -31,6 +32,36 @@ type MemState struct {
 	topic string
 	// Resets counts Reset() calls (the real implementation opens a new empty database)
 	Resets int
+	// failAt > 0: the failAt-th write (Set/Delete/SaveOffset) after Arm fails once, as a full
+	// disk would; an environment answer that the explorations choose
+	failAt, writes int
+	fired          bool
+}
+
+// ErrInjected is the error of an injected write failure.
+var ErrInjected = errors.New("injected: no space left on device")
+
+// Arm makes the k-th write from now fail (once). Disarm reports whether it did.
+func (s *MemState) Arm(k int) { s.mu.Lock(); s.failAt, s.writes, s.fired = k, 0, false; s.mu.Unlock() }
+func (s *MemState) Disarm() bool {
+	s.mu.Lock()
+	defer s.mu.Unlock()
+	f := s.fired
+	s.failAt, s.writes, s.fired = 0, 0, false
+	return f
+}
+
+// failing is called with the lock held at the start of every write.
+func (s *MemState) failing() bool {
+	if s.failAt <= 0 {
+		return false
+	}
+	s.writes++
+	if s.writes == s.failAt {
+		s.fired = true
+		return true
+	}
+	return false
 }
 
 var _ state.State = (*MemState)(nil)
@@ -81,6 +112,9 @@ func (s *MemState) GetOrError(key string) ([]byte, error) {
 func (s *MemState) Set(key string, value []byte) error {
 	s.mu.Lock()
 	defer s.mu.Unlock()
+	if s.failing() {
+		return ErrInjected
+	}
 	if value == nil {
 		value = []byte{}
 	}
@@ -91,6 +125,9 @@ func (s *MemState) Set(key string, value []byte) error {
 func (s *MemState) Delete(key string) error {
 	s.mu.Lock()
 	defer s.mu.Unlock()
+	if s.failing() {
+		return ErrInjected
+	}
 	delete(s.kv, key)
 	return nil
 }
@@ -110,6 +147,9 @@ func (s *MemState) Reset(stateDbPath string) (string, error) {
 func (s *MemState) SaveOffset(o uint64) error {
 	s.mu.Lock()
 	defer s.mu.Unlock()
+	if s.failing() {
+		return ErrInjected
+	}
 	bz := make([]byte, 8)
 	binary.LittleEndian.PutUint64(bz, o)
 	s.kv[s.offKey()] = bz
